@@ -227,3 +227,72 @@ Print Assumptions c04_prog_N_is_bound.
 Print Assumptions c04_planner_lattice_stratified_model.
 Print Assumptions c04_planner_par_lattice_stratified_model.
 Print Assumptions c04_planner_strata_are_sccs.
+
+(* ================= PARAMETERISED AGGREGATORS (Engine/AggParamModel.v, AggParam.v, AggParamExample.v) =================
+   The aggregator EXPRESSION of an agg clause may mention rule variables bound by earlier body items
+   (`agg v = (percentile(p as f64))(x) in r(k, x)`, user-defined parameterised aggregators).  Source language: core items +
+   PBAggP out a ps bound r args (ps = the rule variables the aggregator expression mentions); its specification semantics
+   p_all_envs hands the aggregator OF THE BINDING (paint a <values of ps in the binding>) the aggregated columns of the
+   DISTINCT rows of the whole relation that agree with the binding's key, and continues once per value returned.
+   The generated code evaluates such a clause in two steps (collect the matching rows; apply the aggregator closure built
+   from the binding and loop over its results); tr_rule is that factorisation inside the core language (BAgg COLLECT into a
+   fresh variable, then BGen APPLY over parameters ++ [collected rows]), so the proved engine theorem covers it: *)
+From AV Require Import Engine.AggParamModel.
+From AV Require Import Engine.AggParam.
+From AV Require Engine.AggParamExample.
+
+(* for every interpretation whose aggregators (plain and parameterised) depend only on the multiset of their input, every
+   program with parameterised aggregates whose rules read only variables below w, every plan of the translated program
+   accepted by the validator and every duplicate-free input: the rows after run() of the engine model are the STRATIFIED
+   MODEL OF THE SOURCE PROGRAM (p_strat_model_fixed: least_model_fixed of StratFixed.v over p_derive_rule) *)
+Theorem c04_param_agg_stratified_model : forall (PI : pinterp) (swap : list Core.tuple -> list Core.tuple -> bool) arities (PP : list prule) w pl fuel F0 st,
+  Naive.arities_functional arities -> Naive.wf_facts arities F0 = true -> NoDup F0 -> p_agg_perm_invariant PI ->
+  (forall r, In r PP -> prule_below w r) ->
+  Validate.validate arities (tr_prog w PP) pl = true ->
+  Eval.run_plan (tr_interp PI) swap fuel pl (Eval.init_state F0) = Some st ->
+  p_stratified (p_plan_strata PP pl) = true
+  /\ (forall r, In r PP <-> In r (concat (p_plan_strata PP pl)))
+  /\ p_strat_model_fixed PI (p_plan_strata PP pl) F0 (Eval.rows st)
+  /\ NoDup (Eval.rows st)
+  /\ exists added, Eval.rows st = F0 ++ added.
+Proof. exact agg_param_stratified_model. Qed.
+
+(* the translation lemma behind it: rule by rule, the translated rule derives EXACTLY the facts (same list) the source rule
+   derives under the parameterised semantics *)
+Theorem c04_param_agg_translation : forall (PI : pinterp),
+  (forall a pv l l', Permutation l l' -> paint PI a pv l = paint PI a pv l') ->
+  forall (w0 : Core.var) (db : Core.rel -> list Core.tuple) (r : prule), prule_below w0 r ->
+  Sem.derive_rule (tr_interp PI) db (tr_rule w0 r) = p_derive_rule PI db r.
+Proof. exact tr_rule_derive. Qed.
+
+(* the extension is conservative: on a rule without parameterised aggregates the new semantics is Sem.derive_rule *)
+Theorem c04_param_agg_conservative : forall PI db r,
+  p_derive_rule PI db {| pheads := Core.heads r; pbody := map PB (Core.body r) |} = Sem.derive_rule (pbase PI) db r.
+Proof. exact p_derive_rule_core. Qed.
+
+(* non-vacuity:  out(k, p, v) <-- want(k, p), agg v = (nth(p))(x) in raw(k, x)  with two bindings sharing the key: every
+   hypothesis holds, the engine model runs on the translated plan, its rows are the source program's stratified model *)
+Theorem c04_param_agg_example : exists st,
+  Eval.run_plan (tr_interp AggParamExample.ex_PI) Vocab.std_swap 10 AggParamExample.ex_plan (Eval.init_state AggParamExample.ex_F0) = Some st
+  /\ p_strat_model_fixed AggParamExample.ex_PI (p_plan_strata AggParamExample.ex_PP AggParamExample.ex_plan) AggParamExample.ex_F0 (Eval.rows st)
+  /\ Core.db_of (Eval.rows st) 2%nat = [[1; 0; 1]; [1; 2; 3]; [2; 0; 2]]%Z.
+Proof. exact AggParamExample.agg_param_example. Qed.
+
+(* a memo table for the agg clause keyed by the INDEX KEY ONLY (memo_derive_rule .. false: the first binding's values are
+   reused by every later binding with the same key, whatever its parameter) does NOT compute the rule's meaning: with the
+   multi-valued at_least(p) the binding (key 1, p = 2) fires for the values computed for p = 0 *)
+Theorem c04_agg_memo_by_key_ignoring_parameters_refuted : exists (PI : pinterp) (F : list Core.fact) (r : prule),
+  p_agg_perm_invariant PI /\ NoDup F
+  /\ ~ (forall f, In f (memo_derive_rule PI false (Core.db_of F) r) <-> In f (p_derive_rule PI (Core.db_of F) r)).
+Proof. exact AggParamExample.agg_memo_by_key_refuted. Qed.
+
+Print Assumptions c04_param_agg_stratified_model. Print Assumptions c04_param_agg_translation. Print Assumptions c04_param_agg_conservative.
+Print Assumptions c04_param_agg_example. Print Assumptions c04_agg_memo_by_key_ignoring_parameters_refuted.
+
+(* the parameterised aggregators of the tie's vocabulary (Engine/AggParamVocab.v: percentile(p), nth(n), cnt_above(t), at_least(t),
+   top(n), between(lo, hi), scaled_cnt(m), sum_where(z); the same functions are compiled as Rust in gen/c04_param.py) meet the
+   permutation hypothesis of c04_param_agg_stratified_model *)
+From AV Require Engine.AggParamVocab.
+Theorem c04_param_agg_tie_vocabulary_perm_invariant : forall lits, p_agg_perm_invariant (AggParamVocab.pv_interp lits).
+Proof. exact AggParamExample.pv_perm. Qed.
+Print Assumptions c04_param_agg_tie_vocabulary_perm_invariant.
